@@ -123,25 +123,25 @@ def genEnvP : P GenEnv := do
   let r ← list reqP; let p ← list indP; let g ← optBoolP; let c ← bool
   pure ⟨r, p, g, c⟩
 
-def lookupMat (n : Nat) (flat : Array Rat) (i j : Nat) : Rat := flat.getD (i * n + j) 0
-
-def sproutEnvP : P Sprout.Env := do
-  let nbcs ← list (do
-    let id ← tok; let n ← nat; let m ← rep (n * n) rat; let mean ← optRatP
-    pure (id, n, m.toArray, mean))
-  let dists ← list (do
-    let g ← list rat; let id ← tok; let d ← optRatP
-    pure (g, id, d))
-  pure {
-    nbc := fun id => (nbcs.find? (·.1 == id)).map fun e => (lookupMat e.2.1 e.2.2.1, e.2.2.2)
-    dist := fun g id => ((dists.find? fun e => e.1 == g && e.2.1 == id).map (·.2.2)).getD none }
-
 def idP : P Id := do
   let t ← tok
   if t == "root" then pure [] else
     match (t.splitOn "/").mapM (·.toNat?) with
     | some l => pure l
     | none => failure
+
+def lookupMat (n : Nat) (flat : Array Rat) (i j : Nat) : Rat := flat.getD (i * n + j) 0
+
+def sproutEnvP : P Sprout.Env := do
+  let nbcs ← list (do
+    let id ← idP; let n ← nat; let m ← rep (n * n) rat; let mean ← optRatP
+    pure (id, n, m.toArray, mean))
+  let dists ← list (do
+    let g ← list rat; let id ← idP; let d ← optRatP
+    pure (g, id, d))
+  pure {
+    nbc := fun id => (nbcs.find? (·.1 == id)).map fun e => (lookupMat e.2.1 e.2.2.1, e.2.2.2)
+    dist := fun g id => ((dists.find? fun e => e.1 == g && e.2.1 == id).map (·.2.2)).getD none }
 
 def evP : P Ev := do
   let t ← tok
@@ -186,6 +186,6 @@ def dump (t : T) (full : Bool) : String :=
 
 def dumpStages (tr : List (List Sprout.Cand)) : String :=
   " || ".intercalate (tr.map fun cs => " ; ".intercalate (cs.map fun c =>
-    s!"{c.deme} " ++ showList showInd c.inds))
+    s!"{showId c.deme} " ++ showList showInd c.inds))
 
 end TreeProto
